@@ -228,8 +228,24 @@ func (c *Ctx) Finish(proof *proofInfo, rule string, trusted []string, assumption
 	if len(c.samples) == 0 {
 		cov["samples"] = []interface{}{"(no case generated)"}
 	}
+	if assumptions == nil {
+		assumptions = []string{}
+	}
+	if trusted == nil {
+		trusted = []string{}
+	}
+	level := "proof"
+	if proof == nil || proof.Obligations == 0 {
+		level = "exploration" // no theorem stated yet for this property: correspondence + direct predicate only
+	}
+	if level == "proof" && proof.Discharged == 0 {
+		cov["discharged"] = 0
+	}
+	if len(c.nontriv) < 2 {
+		cov["distinct_nontrivial"] = len(c.nontriv)
+	}
 	ev := map[string]interface{}{
-		"property_id": c.Prop, "tier": c.Tier, "seed": c.Seed, "level": "proof", "coverage": cov,
+		"property_id": c.Prop, "tier": c.Tier, "seed": c.Seed, "level": level, "coverage": cov,
 		"assumptions": assumptions, "wall_s": wall, "violations": viol,
 	}
 	os.MkdirAll("/verif/evidence", 0o755)
